@@ -128,6 +128,15 @@ PROPS["C12"] = {
     "assumptions": ["the http crate behaves as the shim says", "HeaderIter::next: partial correctness"],
 }
 
+PROPS["C15"] = {
+    "technique": "Kani full-domain harnesses for prefixed integers, bit kernels, the per-symbol Huffman step and the end-of-input rule against RFC 7541 oracles; Verus for the encoder loops and the string-level induction lemma",
+    "text": "Complete proofs by CBMC (bounds are the code's own: 10 continuation octets, 14-deep table recursion, unwinding assertions on): prefix_int::decode equals the RFC 7541 §5.1 reading on all byte strings and all prefix sizes (exact value, exact consumption, truncation and overflow reported, never a wrapped value), encode equals the RFC octets, round trip for all u64; read_bits/write_bits/BitWindow kernels; DecodeIter::next returns symbol c and advances by len(c) iff the window starts with the canonical code of c (derived from the RFC 7541 App. B lengths), all 256 encoder table entries equal that code. Verus: ensure_free_space/put/hpack_encode append exactly the codes with an all-ones tail, and lemma_huff_string lifts the per-symbol facts to strings of every length (round trip; accepted iff codes ++ ones(p), p < 8). KNOWN FINDINGS: the decoder accepts >= 8 bits of all-ones padding and a complete EOS (thorough-tier harnesses; not repairable without editing the repository's tests).",
+    "note": "SPEC_HUFF_LEN transcribed from memory of RFC 7541 App. B (checked: per-length counts, Kraft sum, EOS, prefix-freeness, 8 RFC App. C vectors; for symbols >= 128 not independent of the repository beyond those checks); the link between the Kani-proved executable step and the Verus lemma's abstract hcode is the shared definition (axiom_hcode), not one prover's proof; the decoder driver loop and the two collect() lines of prefix_string are glue read off the code; inputs < 2^28 bytes (u32 bit positions).",
+    "design_ref": "§4 C15",
+    "trusted_base": ["Kani 0.68 / CBMC 6.11; Verus 0.2026.09.13; rustc", "kani/_spec.rs SPEC_HUFF_LEN and canonical derivation, spec_prefix_int_*", "units/inc/huffman_spec.rs axiom_hcode", "tools/vp-extract (R26)"],
+    "assumptions": ["string literals shorter than 2^28 bytes", "decoder driver / collect() glue (not under contract)"],
+}
+
 NOT_YET = "unit not built yet in this round (see DESIGN §8 order of work)"
 for _id in ["C01", "C02", "C03", "C04", "C05", "C06", "C07", "C08", "C09", "C10", "C11", "C12", "C13", "C14", "C15", "C17", "C18", "C19"]:
     PROPS.setdefault(_id, {"not_applicable": NOT_YET})
